@@ -1,5 +1,5 @@
 /-
-  Model of ariadne_codegen/settings.py + config.py (C17).
+  Model of ariadne_codegen/settings.py + config.py (C17), over configuration values of EVERY TOML kind.
 
   * `ClientSettings.__post_init__` / `GraphQLSchemaSettings.__post_init__` (with
     `BaseSettings.__post_init__`) as an ORDERED LIST OF CHECKS over what the code can see of the
@@ -18,30 +18,47 @@
       if self.schema_path: assert_path_exists(self.schema_path)                                 -- 2
       self.remote_schema_headers = resolve_headers(self.remote_schema_headers)                  -- 3
       self.include_comments = CommentsStrategy(self.include_comments)   (ValueError -> Invalid) -- 4
-      self._set_default_base_client_data()
-      assert_path_exists(self.queries_path)                                                     -- 5
-      assert_string_is_valid_python_identifier(self.target_package_name)                        -- 6
-      assert_path_is_valid_directory(self.target_package_path)                                  -- 7
-      assert_string_is_valid_python_identifier(self.client_name)                                -- 8
-      assert_string_is_valid_python_identifier(self.client_file_name)                           -- 9
-      assert_string_is_valid_python_identifier(self.base_client_name)                           -- 10
-      assert_path_exists(self.base_client_file_path)                                            -- 11
-      assert_path_is_valid_file(self.base_client_file_path)                                     -- 12
-      assert_class_is_defined_in_file(Path(self.base_client_file_path), self.base_client_name)  -- 13
-      assert_string_is_valid_python_identifier(self.enums_module_name)                          -- 14
-      assert_string_is_valid_python_identifier(self.input_types_module_name)                    -- 15
-      assert_string_is_valid_python_identifier(self.fragments_module_name)                      -- 16
-      for file_path in self.files_to_include: assert_path_is_valid_file(file_path)              -- 17
-      (check 16 was added by /repo 0686a80, which repaired finding C17-F2: until then
-       fragments_module_name was the only module-name option that was never checked)
+      self._set_default_base_client_data()                      (dict lookup by the two flags)  -- 5
+      assert_path_exists(self.queries_path)                                                     -- 6
+      assert_string_is_valid_python_identifier(self.target_package_name)                        -- 7
+      assert_path_is_valid_directory(self.target_package_path)                                  -- 8
+      assert_string_is_valid_python_identifier(self.client_name)                                -- 9
+      assert_string_is_valid_python_identifier(self.client_file_name)                           -- 10
+      assert_string_is_valid_python_identifier(self.base_client_name)                           -- 11
+      assert_path_exists(self.base_client_file_path)                                            -- 12
+      assert_path_is_valid_file(self.base_client_file_path)                                     -- 13
+      assert_class_is_defined_in_file(Path(self.base_client_file_path), self.base_client_name)  -- 14
+      assert_string_is_valid_python_identifier(self.enums_module_name)                          -- 15
+      assert_string_is_valid_python_identifier(self.input_types_module_name)                    -- 16
+      assert_string_is_valid_python_identifier(self.fragments_module_name)                      -- 17
+      for file_path in self.files_to_include: assert_path_is_valid_file(file_path)              -- 18
+      (check 17 was added by /repo 0686a80, which repaired finding C17-F2)
 
-  Domain: well-typed option values (strings for string options, booleans for flags, lists of
-  strings, tables of strings); anything else is answered `.illTyped key` and is outside the
-  compared domain.  Names are ASCII in the correspondence (`Env.isIdent` is Python's
-  `str.isidentifier`, abstract here; `asciiIdent` is its ASCII restriction used by the driver).
-  Core Lean only.
+  VALUE KINDS.  A dataclass does not check the types of its fields, and TOML offers six kinds of value
+  (`TV`: bool / int / float / str / list / table), so every option can hold a value of every kind and
+  what happens is decided by the FIRST Python operation applied to it:
+      `not v` / `if v`            truthiness of the kind (0, 0.0, "", [], {} are false)
+      `Path(v)`                   `TypeError` unless `v` is a `str`
+      `v.isidentifier()`          `AttributeError` unless `v` is a `str`
+      `v.items()` / `v.get(k)`    `AttributeError` unless `v` is a table
+      `v.startswith("$")`         `AttributeError` unless `v` is a `str`
+      `v["type"]`                 `KeyError` on a table without the key, `TypeError` on every other kind
+      `"." in v`                  `TypeError` on bool/int/float, membership on list / table keys
+      `CommentsStrategy(v)`       `ValueError` unless `v` is one of the three strings (1 is NOT `True` here)
+      `isinstance(v, bool)`       only a TOML boolean (1 and 1.0 are not)
+      `d[(v, w)]`                 the flags as dict key: 1 / 1.0 ARE `True` there, 2 / "x" give `KeyError`,
+                                  a list / table gives `TypeError` (unhashable)
+      `for x in v`                items of a list, CHARACTERS of a str, keys of a table, else `TypeError`
+      `f"{v}"`                    `str(v)`
+  A `TypeError` raised anywhere inside the dataclass constructor is caught by config.py and re-raised as
+  `MissingConfiguration("Missing configuration fields: ...")` (`ConfigError.typeErrorAsMissing`); an
+  `AttributeError` / `KeyError` (and a `TypeError` raised while the scalars are parsed) escapes as it is
+  (`ConfigError.internal`).
+
+  Names are ASCII in the correspondence (`Env.isIdent` is Python's `str.isidentifier`, abstract here;
+  `asciiIdent` is its ASCII restriction used by the driver).  Core Lean only.
 -/
-import AriadneModel.Model.Json
+import AriadneModel.Model.Toml
 import AriadneModel.Generated.Tables
 
 namespace Ariadne.Settings
@@ -64,7 +81,8 @@ structure Env where
 inductive ConfigError where
   | missingSection                              -- MissingConfiguration (get_section)
   | scalarMissingType                           -- MissingConfiguration (KeyError 'type')
-  | missingFields (names : List String)         -- MissingConfiguration (TypeError from __post_init__)
+  | missingFields (names : List String)         -- MissingConfiguration (the TypeError `__post_init__` raises itself: no queries_path)
+  | typeErrorAsMissing (names : List String)    -- MissingConfiguration (an ACCIDENTAL TypeError inside the constructor: Path(1), unhashable flag, `for x in 1`)
   | noSchemaSource                              -- InvalidConfiguration ...
   | pathMissing (p : String)
   | notDirectory (p : String)
@@ -75,16 +93,14 @@ inductive ConfigError where
   | classNotInFile (cls path : String)
   | targetNoFileType (f : String)
   | targetBadFileType (f t : String)
-  | illTyped (key : String)                     -- outside the modelled domain (ill-typed option value)
-  | internal (exc : String)                     -- any other Python exception (never produced on the pinned tables)
+  | internal (exc : String)                     -- a bare Python exception escapes: AttributeError / KeyError / TypeError
   deriving Repr, DecidableEq, Inhabited
 
 deriving instance DecidableEq for Except
 
 /-- the Python exception class that surfaces -/
 def ConfigError.pyClass : ConfigError → String
-  | .missingSection | .scalarMissingType | .missingFields _ => "MissingConfiguration"
-  | .illTyped _ => "unmodelled"
+  | .missingSection | .scalarMissingType | .missingFields _ | .typeErrorAsMissing _ => "MissingConfiguration"
   | .internal e => e
   | _ => "InvalidConfiguration"
 
@@ -98,6 +114,7 @@ def ConfigError.message : ConfigError → String
   | .missingSection => "Config has no [tool.ariadne-codegen] section."
   | .scalarMissingType => "Missing 'type' field for scalar definition"
   | .missingFields ns => "Missing configuration fields: " ++ ", ".intercalate ns
+  | .typeErrorAsMissing ns => "Missing configuration fields: " ++ ", ".intercalate ns
   | .noSchemaSource => "Schema source not provided. Use schema_path or remote_schema_url"
   | .pathMissing p => "Provided path " ++ p ++ " doesn't exist."
   | .notDirectory p => "Provided path " ++ p ++ " isn't a directory."
@@ -110,7 +127,6 @@ def ConfigError.message : ConfigError → String
   | .targetNoFileType f => "Provided file name " ++ f ++ " is missing a file type."
   | .targetBadFileType f t =>
       "Provided file name " ++ f ++ " has an invalid type " ++ t ++ ". Valid types are py, graphql and gql."
-  | .illTyped k => "ill-typed value for " ++ k
   | .internal e => e
 
 /-! ## small pieces of Python -/
@@ -222,53 +238,100 @@ def targetFileCheck (f : String) : Option ConfigError :=
     let t := asciiLower (suf.drop 1)
     if t == "py" || t == "graphql" || t == "gql" then none else some (.targetBadFileType f t)
 
-/-! ## the settings records (after the dataclass `__init__` assigned fields and defaults) -/
+/-! ## the same pieces on a value of unknown kind -/
+
+/-- `assert_path_exists(v)` / `assert_path_is_valid_directory(v)` / `assert_path_is_valid_file(v)`:
+    `Path(v)` raises `TypeError` unless `v` is a `str` -/
+def pathCheck (missing : List String) (test : String → Bool) (err : String → ConfigError) : TV → Option ConfigError
+  | .str p => if test p then none else some (err p)
+  | _ => some (.typeErrorAsMissing missing)
+
+/-- `get_header_value(v)`: `v.startswith` -/
+def headerValueV (env : Env) : TV → Except ConfigError TV
+  | .str v =>
+    match headerValue env v with
+    | .ok r => .ok (.str r)
+    | .error e => .error e
+  | _ => .error (.internal "AttributeError")
+
+/-- the dict comprehension of `resolve_headers` over the items of a table -/
+def resolveHeadersKvs (env : Env) : List (String × TV) → Except ConfigError (List (String × TV))
+  | [] => .ok []
+  | (k, v) :: rest =>
+    match headerValueV env v with
+    | .error e => .error e
+    | .ok v' =>
+      match resolveHeadersKvs env rest with
+      | .error e => .error e
+      | .ok rest' => .ok ((k, v') :: rest')
+
+/-- `resolve_headers(v)`: `v.items()` -/
+def resolveHeadersV (env : Env) : TV → Except ConfigError TV
+  | .table kvs =>
+    match resolveHeadersKvs env kvs with
+    | .ok r => .ok (.table r)
+    | .error e => .error e
+  | _ => .error (.internal "AttributeError")
+
+def firstBadHeaderV (env : Env) (v : TV) : Option ConfigError :=
+  match resolveHeadersV env v with
+  | .error e => some e
+  | .ok _ => none
+
+/-- `for file_path in files: assert_path_is_valid_file(file_path)` over the items Python iterates -/
+def firstNonFileV (env : Env) (missing : List String) : List TV → Option ConfigError
+  | [] => none
+  | .str f :: fs => if env.isFile f then firstNonFileV env missing fs else some (.notFile f)
+  | _ :: _ => some (.typeErrorAsMissing missing)
+
+/-! ## the settings records (after the dataclass `__init__` assigned fields and defaults; a dataclass
+      does not look at the types, so every field holds a `TV`) -/
 
 structure ScalarData where
   graphqlName : String
-  type_ : String
-  serialize : Option String
-  parse : Option String
-  import_ : Option String
+  type_ : TV
+  serialize : Option TV
+  parse : Option TV
+  import_ : Option TV
   deriving Repr, DecidableEq
 
 structure BaseSettings where
-  schemaPath : String := ""
-  remoteSchemaUrl : String := ""
-  remoteSchemaHeaders : List (String × String) := []
-  remoteSchemaVerifySsl : Bool := true
-  enableCustomOperations : Bool := false
-  plugins : List String := []
-  deriving Repr, DecidableEq
-
-structure ClientSettings extends BaseSettings where
-  queriesPath : String := ""
-  targetPackageName : String := "graphql_client"
-  targetPackagePath : String              -- default: Path.cwd().as_posix()
-  clientName : String := "Client"
-  clientFileName : String := "client"
-  baseClientName : String := ""
-  baseClientFilePath : String := ""
-  enumsModuleName : String := "enums"
-  inputTypesModuleName : String := "input_types"
-  fragmentsModuleName : String := "fragments"
-  includeComments : String := "stable"
-  convertToSnakeCase : Bool := true
-  includeAllInputs : Bool := true
-  includeAllEnums : Bool := true
-  asyncClient : Bool := true
-  opentelemetryClient : Bool := false
-  filesToInclude : List String := []
-  scalars : List ScalarData := []
-  /-- names of `fields(ClientSettings)` that are not keys of the section (for the
-      `MissingConfiguration` message built in `get_client_settings`) -/
+  schemaPath : TV := .str ""
+  remoteSchemaUrl : TV := .str ""
+  remoteSchemaHeaders : TV := .table []
+  remoteSchemaVerifySsl : TV := .bool true
+  enableCustomOperations : TV := .bool false
+  plugins : TV := .list []
+  /-- names of the dataclass fields that are not keys of the section (for the
+      `MissingConfiguration` message config.py builds when a `TypeError` comes out of the constructor) -/
   missing : List String := []
   deriving Repr, DecidableEq
 
+structure ClientSettings extends BaseSettings where
+  queriesPath : TV := .str ""
+  targetPackageName : TV := .str "graphql_client"
+  targetPackagePath : TV              -- default: Path.cwd().as_posix()
+  clientName : TV := .str "Client"
+  clientFileName : TV := .str "client"
+  baseClientName : TV := .str ""
+  baseClientFilePath : TV := .str ""
+  enumsModuleName : TV := .str "enums"
+  inputTypesModuleName : TV := .str "input_types"
+  fragmentsModuleName : TV := .str "fragments"
+  includeComments : TV := .str "stable"
+  convertToSnakeCase : TV := .bool true
+  includeAllInputs : TV := .bool true
+  includeAllEnums : TV := .bool true
+  asyncClient : TV := .bool true
+  opentelemetryClient : TV := .bool false
+  filesToInclude : TV := .list []
+  scalars : List ScalarData := []
+  deriving Repr, DecidableEq
+
 structure SchemaSettings extends BaseSettings where
-  targetFilePath : String := "schema.py"
-  schemaVariableName : String := "schema"
-  typeMapVariableName : String := "type_map"
+  targetFilePath : TV := .str "schema.py"
+  schemaVariableName : TV := .str "schema"
+  typeMapVariableName : TV := .str "type_map"
   deriving Repr, DecidableEq
 
 /-! ## `_set_default_base_client_data` -/
@@ -284,17 +347,34 @@ def clientKind (isAsync otel : Bool) : String :=
 def defaultClassName (kind : String) : Option String :=
   (Tables.defaultBaseClients.find? (fun t => t.1 == kind)).map (fun t => t.2.1)
 
+/-- what `_set_default_base_client_data` does -/
+inductive DefaultsOutcome where
+  | keep                    -- a name or a path is given: nothing happens
+  | pick (kind : String)    -- `default_clients_map[(async_client, opentelemetry_client)]` found
+  | keyError                -- the flags are hashable but equal to neither True nor False
+  | typeError               -- a flag is unhashable (list / table)
+  deriving Repr, DecidableEq
+
+def defaultsOutcome (s : ClientSettings) : DefaultsOutcome :=
+  if !s.baseClientName.truthy && !s.baseClientFilePath.truthy then
+    match s.asyncClient.boolKey, s.opentelemetryClient.boolKey with
+    | none, _ => .typeError
+    | _, none => .typeError
+    | some (some a), some (some o) => .pick (clientKind a o)
+    | _, _ => .keyError
+  else .keep
+
 /-- `(base_client_name, base_client_file_path)` after `_set_default_base_client_data` -/
-def baseClientData (env : Env) (s : ClientSettings) : String × String :=
-  if s.baseClientName == "" && s.baseClientFilePath == "" then
-    let kind := clientKind s.asyncClient s.opentelemetryClient
-    ((defaultClassName kind).getD "", env.defaultPath kind)
-  else (s.baseClientName, s.baseClientFilePath)
+def baseClientData (env : Env) (s : ClientSettings) : TV × TV :=
+  match defaultsOutcome s with
+  | .pick kind => (.str ((defaultClassName kind).getD ""), .str (env.defaultPath kind))
+  | _ => (s.baseClientName, s.baseClientFilePath)
 
 /-! ## the ordered checks -/
 
 inductive ClientCheck where
-  | queriesRequired | schemaSource | schemaPathExists | headers | commentMode | queriesPathExists
+  | queriesRequired | schemaSource | schemaPathExists | headers | commentMode | baseClientDefaults
+  | queriesPathExists
   | packageName | packagePathDir | clientName | clientFileName | baseClientName
   | baseClientPathExists | baseClientIsFile | baseClientClass | enumsModule | inputTypesModule
   | fragmentsModule | filesToInclude
@@ -302,7 +382,8 @@ inductive ClientCheck where
 
 /-- execution order of `ClientSettings.__post_init__` -/
 def ClientCheck.order : List ClientCheck :=
-  [.queriesRequired, .schemaSource, .schemaPathExists, .headers, .commentMode, .queriesPathExists,
+  [.queriesRequired, .schemaSource, .schemaPathExists, .headers, .commentMode, .baseClientDefaults,
+   .queriesPathExists,
    .packageName, .packagePathDir, .clientName, .clientFileName, .baseClientName,
    .baseClientPathExists, .baseClientIsFile, .baseClientClass, .enumsModule, .inputTypesModule,
    .fragmentsModule, .filesToInclude]
@@ -310,37 +391,50 @@ def ClientCheck.order : List ClientCheck :=
 def identCheck (env : Env) (n : String) : Option ConfigError :=
   if validName env n then none else some (.badIdentifier n)
 
+/-- `assert_string_is_valid_python_identifier(v)`: `v.isidentifier()` -/
+def identCheckV (env : Env) : TV → Option ConfigError
+  | .str n => identCheck env n
+  | _ => some (.internal "AttributeError")
+
+/-- is the value one of the comment modes?  (`CommentsStrategy(v)` succeeds) -/
+def isCommentMode : TV → Bool
+  | .str m => Tables.commentsStrategies.contains m
+  | _ => false
+
 /-- one check of `ClientSettings.__post_init__`: `none` = passes, `some e` = raises `e` -/
 def evalClientCheck (env : Env) (s : ClientSettings) : ClientCheck → Option ConfigError
   | .queriesRequired =>
-      if s.queriesPath == "" && !s.enableCustomOperations then some (.missingFields s.missing) else none
+      if !s.queriesPath.truthy && !s.enableCustomOperations.truthy then some (.missingFields s.missing) else none
   | .schemaSource =>
-      if s.schemaPath == "" && s.remoteSchemaUrl == "" then some .noSchemaSource else none
+      if !s.schemaPath.truthy && !s.remoteSchemaUrl.truthy then some .noSchemaSource else none
   | .schemaPathExists =>
-      if s.schemaPath != "" && !env.pathExists s.schemaPath then some (.pathMissing s.schemaPath) else none
-  | .headers => firstBadHeader env s.remoteSchemaHeaders
+      if s.schemaPath.truthy then pathCheck s.missing env.pathExists .pathMissing s.schemaPath else none
+  | .headers => firstBadHeaderV env s.remoteSchemaHeaders
   | .commentMode =>
-      if Tables.commentsStrategies.contains s.includeComments then none
-      else some (.badCommentMode s.includeComments)
-  | .queriesPathExists =>
-      if env.pathExists s.queriesPath then none else some (.pathMissing s.queriesPath)
-  | .packageName => identCheck env s.targetPackageName
-  | .packagePathDir =>
-      if env.isDir s.targetPackagePath then none else some (.notDirectory s.targetPackagePath)
-  | .clientName => identCheck env s.clientName
-  | .clientFileName => identCheck env s.clientFileName
-  | .baseClientName => identCheck env (baseClientData env s).1
-  | .baseClientPathExists =>
-      if env.pathExists (baseClientData env s).2 then none else some (.pathMissing (baseClientData env s).2)
-  | .baseClientIsFile =>
-      if env.isFile (baseClientData env s).2 then none else some (.notFile (baseClientData env s).2)
+      if isCommentMode s.includeComments then none else some (.badCommentMode s.includeComments.pyStr)
+  | .baseClientDefaults =>
+      match defaultsOutcome s with
+      | .keyError => some (.internal "KeyError")
+      | .typeError => some (.typeErrorAsMissing s.missing)
+      | _ => none
+  | .queriesPathExists => pathCheck s.missing env.pathExists .pathMissing s.queriesPath
+  | .packageName => identCheckV env s.targetPackageName
+  | .packagePathDir => pathCheck s.missing env.isDir .notDirectory s.targetPackagePath
+  | .clientName => identCheckV env s.clientName
+  | .clientFileName => identCheckV env s.clientFileName
+  | .baseClientName => identCheckV env (baseClientData env s).1
+  | .baseClientPathExists => pathCheck s.missing env.pathExists .pathMissing (baseClientData env s).2
+  | .baseClientIsFile => pathCheck s.missing env.isFile .notFile (baseClientData env s).2
   | .baseClientClass =>
-      if classDefinedIn env (baseClientData env s).2 (baseClientData env s).1 then none
-      else some (.classNotInFile (baseClientData env s).1 (baseClientData env s).2)
-  | .enumsModule => identCheck env s.enumsModuleName
-  | .inputTypesModule => identCheck env s.inputTypesModuleName
-  | .fragmentsModule => identCheck env s.fragmentsModuleName
-  | .filesToInclude => firstNonFile env s.filesToInclude
+      pathCheck s.missing (fun p => classDefinedIn env p (baseClientData env s).1.pyStr)
+        (fun p => .classNotInFile (baseClientData env s).1.pyStr p) (baseClientData env s).2
+  | .enumsModule => identCheckV env s.enumsModuleName
+  | .inputTypesModule => identCheckV env s.inputTypesModuleName
+  | .fragmentsModule => identCheckV env s.fragmentsModuleName
+  | .filesToInclude =>
+      match s.filesToInclude.pyIter with
+      | none => some (.typeErrorAsMissing s.missing)
+      | some items => firstNonFileV env s.missing items
 
 /-- the first check (in order) that raises -/
 def firstError {κ : Type} (eval : κ → Option ConfigError) : List κ → Option ConfigError
@@ -352,7 +446,7 @@ def firstError {κ : Type} (eval : κ → Option ConfigError) : List κ → Opti
 /-- the settings object as it is after a successful `__post_init__` -/
 def finalizeClient (env : Env) (s : ClientSettings) : ClientSettings :=
   { s with
-    remoteSchemaHeaders := (match resolveHeaders env s.remoteSchemaHeaders with
+    remoteSchemaHeaders := (match resolveHeadersV env s.remoteSchemaHeaders with
                             | .ok hs => hs | .error _ => s.remoteSchemaHeaders)
     baseClientName := (baseClientData env s).1
     baseClientFilePath := (baseClientData env s).2 }
@@ -371,19 +465,24 @@ inductive SchemaCheck where
 def SchemaCheck.order : List SchemaCheck :=
   [.schemaSource, .schemaPathExists, .headers, .targetFileType, .schemaVariable, .typeMapVariable]
 
+/-- `assert_string_is_valid_schema_target_filename(v)`: `Path(v).suffix` -/
+def targetFileCheckV (missing : List String) : TV → Option ConfigError
+  | .str f => targetFileCheck f
+  | _ => some (.typeErrorAsMissing missing)
+
 def evalSchemaCheck (env : Env) (s : SchemaSettings) : SchemaCheck → Option ConfigError
   | .schemaSource =>
-      if s.schemaPath == "" && s.remoteSchemaUrl == "" then some .noSchemaSource else none
+      if !s.schemaPath.truthy && !s.remoteSchemaUrl.truthy then some .noSchemaSource else none
   | .schemaPathExists =>
-      if s.schemaPath != "" && !env.pathExists s.schemaPath then some (.pathMissing s.schemaPath) else none
-  | .headers => firstBadHeader env s.remoteSchemaHeaders
-  | .targetFileType => targetFileCheck s.targetFilePath
-  | .schemaVariable => identCheck env s.schemaVariableName
-  | .typeMapVariable => identCheck env s.typeMapVariableName
+      if s.schemaPath.truthy then pathCheck s.missing env.pathExists .pathMissing s.schemaPath else none
+  | .headers => firstBadHeaderV env s.remoteSchemaHeaders
+  | .targetFileType => targetFileCheckV s.missing s.targetFilePath
+  | .schemaVariable => identCheckV env s.schemaVariableName
+  | .typeMapVariable => identCheckV env s.typeMapVariableName
 
 def finalizeSchema (env : Env) (s : SchemaSettings) : SchemaSettings :=
   { s with
-    remoteSchemaHeaders := (match resolveHeaders env s.remoteSchemaHeaders with
+    remoteSchemaHeaders := (match resolveHeadersV env s.remoteSchemaHeaders with
                             | .ok hs => hs | .error _ => s.remoteSchemaHeaders) }
 
 /-- `GraphQLSchemaSettings.__post_init__` -/
@@ -394,132 +493,124 @@ def schemaPostInit (env : Env) (s : SchemaSettings) : Except ConfigError SchemaS
 
 /-! ## config.py: from the configuration dict to the dataclass -/
 
-abbrev Dict := List (String × J)
+abbrev Dict := List (String × TV)
 
 def clientFieldNames : List String := Tables.clientSettingsFields.map (·.1)
 def schemaFieldNames : List String := Tables.schemaSettingsFields.map (·.1)
 
 /-- `dict[k] = v` (keeps the position of an existing key, appends a new one) -/
-def dictSet (k : String) (v : J) : Dict → Dict
+def dictSet (k : String) (v : TV) : Dict → Dict
   | [] => [(k, v)]
   | (k', v') :: rest => if k' == k then (k, v) :: rest else (k', v') :: dictSet k v rest
 
 /-- `get_section`: `(section, deprecated top-level section used?)`.
-    `[tool.ariadne-codegen]` wins over the deprecated `[ariadne-codegen]`. -/
-def getSection : J → Except ConfigError (Dict × Bool)
-  | .obj top =>
-    let fallback : Except ConfigError (Dict × Bool) :=
-      match J.lookup "ariadne-codegen" top with
-      | some (.obj sec) => .ok (sec, true)
-      | some _ => .error (.illTyped "ariadne-codegen")
+    `[tool.ariadne-codegen]` wins over the deprecated `[ariadne-codegen]`.
+
+        if tool_key in config_dict and codegen_key in config_dict.get(tool_key, {}):
+            return config_dict[tool_key][codegen_key]
+        if codegen_key in config_dict: warn(...); return config_dict[codegen_key]
+        raise MissingConfiguration(...)
+
+    `codegen_key in tool` is a key test on a table, a SUBSTRING test on a str, an element test on a
+    list, and a `TypeError` on bool / int / float; `tool[codegen_key]` on a str or list is a `TypeError`.
+    The section itself may be a value of any kind. -/
+def getSection (top : Dict) : Except ConfigError (TV × Bool) :=
+    let fallback : Except ConfigError (TV × Bool) :=
+      match TV.lookup "ariadne-codegen" top with
+      | some sec => .ok (sec, true)
       | none => .error .missingSection
-    match J.lookup "tool" top with
-    | some (.obj tool) =>
-      match J.lookup "ariadne-codegen" tool with
-      | some (.obj sec) => .ok (sec, false)
-      | some _ => .error (.illTyped "tool.ariadne-codegen")
+    match TV.lookup "tool" top with
+    | some (.table tool) =>
+      match TV.lookup "ariadne-codegen" tool with
+      | some sec => .ok (sec, false)
       | none => fallback
-    | some _ => .error (.illTyped "tool")
+    | some tool =>
+      match tool.containsStr "ariadne-codegen" with
+      | none => .error (.internal "TypeError")          -- `in` on bool / int / float
+      | some true => .error (.internal "TypeError")     -- str / list indexed by a str
+      | some false => fallback
     | none => fallback
-  | _ => .error (.illTyped "config")
 
-def optStr (k : String) (d : Dict) : Except ConfigError (Option String) :=
-  match J.lookup k d with
-  | none => .ok none
-  | some .null => .ok none
-  | some (.str s) => .ok (some s)
-  | some _ => .error (.illTyped ("scalars." ++ k))
+/-- `ScalarData._get_object_name(name)`: `"." in name`, then `name.rsplit(".")` -/
+def objectNameCheck : TV → Option ConfigError
+  | .str _ => none
+  | .list xs => if xs.any (fun x => x == TV.str ".") then some (.internal "AttributeError") else none
+  | .table kvs => if TV.hasKey "." kvs then some (.internal "AttributeError") else none
+  | _ => some (.internal "TypeError")        -- bool / int / float: argument of type ... is not iterable
 
-/-- one `ScalarData(type_=data["type"], serialize=data.get("serialize"), ...)` -/
-def parseScalar (name : String) : J → Except ConfigError ScalarData
-  | .obj d =>
-    match J.lookup "type" d with
+/-- `self._get_object_name(self.parse) if self.parse else None` -/
+def optObjectNameCheck : Option TV → Option ConfigError
+  | none => none
+  | some v => if v.truthy then objectNameCheck v else none
+
+/-- one `ScalarData(type_=data["type"], serialize=data.get("serialize"), ...)` incl. its `__post_init__`
+    (`type_name`, `parse_name`, `serialize_name` in that order) -/
+def parseScalar (name : String) : TV → Except ConfigError ScalarData
+  | .table d =>
+    match TV.lookup "type" d with
     | none => .error .scalarMissingType                    -- KeyError -> MissingConfiguration
-    | some (.str t) => do
-      let ser ← optStr "serialize" d
-      let par ← optStr "parse" d
-      let imp ← optStr "import" d
-      pure { graphqlName := name, type_ := t, serialize := ser, parse := par, import_ := imp }
-    | some _ => .error (.illTyped "scalars.type")
-  | _ => .error (.illTyped "scalars")
+    | some t =>
+      let ser := TV.lookup "serialize" d
+      let par := TV.lookup "parse" d
+      let imp := TV.lookup "import" d
+      match objectNameCheck t with
+      | some e => .error e
+      | none =>
+        match optObjectNameCheck par with
+        | some e => .error e
+        | none =>
+          match optObjectNameCheck ser with
+          | some e => .error e
+          | none => .ok { graphqlName := name, type_ := t, serialize := ser, parse := par, import_ := imp }
+  | _ => .error (.internal "TypeError")                    -- `data["type"]` on a str / list / number / bool
 
-def parseScalars : List (String × J) → Except ConfigError (List ScalarData)
+def parseScalars : List (String × TV) → Except ConfigError (List ScalarData)
   | [] => .ok []
-  | (n, d) :: rest => do
-    let s ← parseScalar n d
-    let ss ← parseScalars rest
-    pure (s :: ss)
+  | (n, d) :: rest =>
+    match parseScalar n d with
+    | .error e => .error e
+    | .ok s =>
+      match parseScalars rest with
+      | .error e => .error e
+      | .ok ss => .ok (s :: ss)
 
-def getStr (sec : Dict) (k dflt : String) : Except ConfigError String :=
-  match J.lookup k sec with
-  | none => .ok dflt
-  | some (.str s) => .ok s
-  | some _ => .error (.illTyped k)
+/-- `section.get(k, default)` as the dataclass constructor sees it -/
+def getV (sec : Dict) (k : String) (dflt : TV) : TV := (TV.lookup k sec).getD dflt
 
-def getBool (sec : Dict) (k : String) (dflt : Bool) : Except ConfigError Bool :=
-  match J.lookup k sec with
-  | none => .ok dflt
-  | some (.bool b) => .ok b
-  | some _ => .error (.illTyped k)
-
-def strItems (k : String) : List J → Except ConfigError (List String)
-  | [] => .ok []
-  | .str s :: rest => do pure (s :: (← strItems k rest))
-  | _ :: _ => .error (.illTyped k)
-
-def getStrList (sec : Dict) (k : String) : Except ConfigError (List String) :=
-  match J.lookup k sec with
-  | none => .ok []
-  | some (.arr xs) => strItems k xs
-  | some _ => .error (.illTyped k)
-
-def strPairs (k : String) : List (String × J) → Except ConfigError (List (String × String))
-  | [] => .ok []
-  | (n, .str s) :: rest => do pure ((n, s) :: (← strPairs k rest))
-  | _ :: _ => .error (.illTyped k)
-
-def getStrDict (sec : Dict) (k : String) : Except ConfigError (List (String × String)) :=
-  match J.lookup k sec with
-  | none => .ok []
-  | some (.obj kvs) => strPairs k kvs
-  | some _ => .error (.illTyped k)
-
-def getBase (sec : Dict) : Except ConfigError BaseSettings := do
-  pure {
-    schemaPath := ← getStr sec "schema_path" ""
-    remoteSchemaUrl := ← getStr sec "remote_schema_url" ""
-    remoteSchemaHeaders := ← getStrDict sec "remote_schema_headers"
-    remoteSchemaVerifySsl := ← getBool sec "remote_schema_verify_ssl" true
-    enableCustomOperations := ← getBool sec "enable_custom_operations" false
-    plugins := ← getStrList sec "plugins" }
+def getBase (sec : Dict) (fieldNames : List String) : BaseSettings :=
+  { schemaPath := getV sec "schema_path" (.str "")
+    remoteSchemaUrl := getV sec "remote_schema_url" (.str "")
+    remoteSchemaHeaders := getV sec "remote_schema_headers" (.table [])
+    remoteSchemaVerifySsl := getV sec "remote_schema_verify_ssl" (.bool true)
+    enableCustomOperations := getV sec "enable_custom_operations" (.bool false)
+    plugins := getV sec "plugins" (.list [])
+    missing := fieldNames.filter (fun f => !(TV.hasKey f sec)) }
 
 /-- The caller's configuration dict and the function's local `section` variable.
     `aliased = true` while `section` IS the caller's nested dict object (no `.copy()` yet):
     item assignments to `section` are then visible to the caller. -/
 structure Heap where
-  caller : J            -- the object the caller passed (`config_dict`)
+  caller : Dict         -- the object the caller passed (`config_dict`, a TOML document: a table)
   viaTool : Bool        -- where the section sits inside it
   section_ : Dict       -- the local variable `section`
   aliased : Bool
 
 /-- write `section[k] = v` through to the caller's dict when `section` aliases it -/
-def putInCaller (viaTool : Bool) (k : String) (v : J) : J → J
-  | .obj top =>
+def putInCaller (viaTool : Bool) (k : String) (v : TV) (top : Dict) : Dict :=
     if viaTool then
-      match J.lookup "tool" top with
-      | some (.obj tool) =>
-        match J.lookup "ariadne-codegen" tool with
-        | some (.obj sec) => .obj (dictSet "tool" (.obj (dictSet "ariadne-codegen" (.obj (dictSet k v sec)) tool)) top)
-        | _ => .obj top
-      | _ => .obj top
+      match TV.lookup "tool" top with
+      | some (.table tool) =>
+        match TV.lookup "ariadne-codegen" tool with
+        | some (.table sec) => dictSet "tool" (.table (dictSet "ariadne-codegen" (.table (dictSet k v sec)) tool)) top
+        | _ => top
+      | _ => top
     else
-      match J.lookup "ariadne-codegen" top with
-      | some (.obj sec) => .obj (dictSet "ariadne-codegen" (.obj (dictSet k v sec)) top)
-      | _ => .obj top
-  | j => j
+      match TV.lookup "ariadne-codegen" top with
+      | some (.table sec) => dictSet "ariadne-codegen" (.table (dictSet k v sec)) top
+      | _ => top
 
 /-- `section[k] = v` -/
-def Heap.setItem (h : Heap) (k : String) (v : J) : Heap :=
+def Heap.setItem (h : Heap) (k : String) (v : TV) : Heap :=
   { h with section_ := dictSet k v h.section_,
            caller := if h.aliased then putInCaller h.viaTool k v h.caller else h.caller }
 
@@ -527,37 +618,33 @@ def Heap.setItem (h : Heap) (k : String) (v : J) : Heap :=
 def Heap.copy (h : Heap) : Heap := { h with aliased := false }
 
 /-- wire form of a parsed scalars table; only its key set matters for what follows -/
-def scalarsMarker (ss : List ScalarData) : J := .obj (ss.map fun s => (s.graphqlName, J.str s.type_))
+def scalarsMarker (ss : List ScalarData) : TV := .table (ss.map fun s => (s.graphqlName, s.type_))
 
 /-- the dataclass `__init__`: keyword arguments filtered by `key in settings_fields_names`,
-    defaults for the rest (unknown keys are never looked at) -/
-def assignClientFields (env : Env) (sec : Dict) (scalars : List ScalarData) : Except ConfigError ClientSettings := do
-  let base ← getBase sec
-  let comments ← getStr sec "include_comments" "stable"
-  pure {
-    toBaseSettings := base
-    queriesPath := ← getStr sec "queries_path" ""
-    targetPackageName := ← getStr sec "target_package_name" "graphql_client"
-    targetPackagePath := ← getStr sec "target_package_path" env.cwd
-    clientName := ← getStr sec "client_name" "Client"
-    clientFileName := ← getStr sec "client_file_name" "client"
-    baseClientName := ← getStr sec "base_client_name" ""
-    baseClientFilePath := ← getStr sec "base_client_file_path" ""
-    enumsModuleName := ← getStr sec "enums_module_name" "enums"
-    inputTypesModuleName := ← getStr sec "input_types_module_name" "input_types"
-    fragmentsModuleName := ← getStr sec "fragments_module_name" "fragments"
-    includeComments := comments
-    convertToSnakeCase := ← getBool sec "convert_to_snake_case" true
-    includeAllInputs := ← getBool sec "include_all_inputs" true
-    includeAllEnums := ← getBool sec "include_all_enums" true
-    asyncClient := ← getBool sec "async_client" true
-    opentelemetryClient := ← getBool sec "opentelemetry_client" false
-    filesToInclude := ← getStrList sec "files_to_include"
-    scalars := scalars
-    missing := clientFieldNames.filter (fun f => !(J.hasKey f sec)) }
+    defaults for the rest (unknown keys are never looked at, types are never looked at) -/
+def assignClientFields (env : Env) (sec : Dict) (scalars : List ScalarData) : ClientSettings :=
+  { toBaseSettings := getBase sec clientFieldNames
+    queriesPath := getV sec "queries_path" (.str "")
+    targetPackageName := getV sec "target_package_name" (.str "graphql_client")
+    targetPackagePath := getV sec "target_package_path" (.str env.cwd)
+    clientName := getV sec "client_name" (.str "Client")
+    clientFileName := getV sec "client_file_name" (.str "client")
+    baseClientName := getV sec "base_client_name" (.str "")
+    baseClientFilePath := getV sec "base_client_file_path" (.str "")
+    enumsModuleName := getV sec "enums_module_name" (.str "enums")
+    inputTypesModuleName := getV sec "input_types_module_name" (.str "input_types")
+    fragmentsModuleName := getV sec "fragments_module_name" (.str "fragments")
+    includeComments := getV sec "include_comments" (.str "stable")
+    convertToSnakeCase := getV sec "convert_to_snake_case" (.bool true)
+    includeAllInputs := getV sec "include_all_inputs" (.bool true)
+    includeAllEnums := getV sec "include_all_enums" (.bool true)
+    asyncClient := getV sec "async_client" (.bool true)
+    opentelemetryClient := getV sec "opentelemetry_client" (.bool false)
+    filesToInclude := getV sec "files_to_include" (.list [])
+    scalars := scalars }
 
 /-- `ClientSettings(**{key: value for key, value in section.items() if key in settings_fields_names})` -/
-def buildClient (env : Env) (sec : Dict) (scalars : List ScalarData) : Except ConfigError ClientSettings :=
+def buildClient (env : Env) (sec : Dict) (scalars : List ScalarData) : ClientSettings :=
   assignClientFields env (sec.filter (fun kv => clientFieldNames.contains kv.1)) scalars
 
 /-- result of reading settings: what is returned/raised, whether the deprecation warning for the
@@ -566,55 +653,59 @@ structure Read (α : Type) where
   result : Except ConfigError α
   deprecatedSection : Bool := false
   deprecatedBoolComments : Bool := false
-  callerAfter : J
+  callerAfter : Dict
 
 /-- `config.get_client_settings` up to (not including) `__post_init__`: the dataclass with the
     fields assigned from the section -/
-def readRawClient (env : Env) (cfg : J) : Read ClientSettings :=
+def readRawClient (env : Env) (cfg : Dict) : Read ClientSettings :=
   match getSection cfg with
   | .error e => { result := .error e, callerAfter := cfg }
-  | .ok (sec, depr) =>
+  | .ok (.table sec, depr) =>
     -- section = get_section(config_dict).copy()
     let h : Heap := ({ caller := cfg, viaTool := !depr, section_ := sec, aliased := true } : Heap).copy
     -- section["scalars"] = {name: ScalarData(...) for name, data in section.get("scalars", {}).items()}
-    let scalarsIn : Except ConfigError (List (String × J)) :=
-      match J.lookup "scalars" h.section_ with
+    let scalarsIn : Except ConfigError (List (String × TV)) :=
+      match TV.lookup "scalars" h.section_ with
       | none => .ok []
-      | some (.obj kvs) => .ok kvs
-      | some _ => .error (.illTyped "scalars")
+      | some (.table kvs) => .ok kvs
+      | some _ => .error (.internal "AttributeError")       -- `.items()` on a non-table
     match scalarsIn >>= parseScalars with
     | .error e => { result := .error e, deprecatedSection := depr, callerAfter := h.caller }
     | .ok scalars =>
       let h := h.setItem "scalars" (scalarsMarker scalars)
-      -- boolean include_comments -> "timestamp" / "none" (+ DeprecationWarning)
+      -- `isinstance(section["include_comments"], bool)` -> "timestamp" / "none" (+ DeprecationWarning);
+      -- the numbers 1 / 0 / 1.0 are NOT booleans here
       let (h, boolComments) :=
-        match J.lookup "include_comments" h.section_ with
+        match TV.lookup "include_comments" h.section_ with
         | some (.bool b) => (h.setItem "include_comments" (.str (if b then "timestamp" else "none")), true)
         | _ => (h, false)
-      { result := buildClient env h.section_ scalars,
+      { result := .ok (buildClient env h.section_ scalars),
         deprecatedSection := depr, deprecatedBoolComments := boolComments, callerAfter := h.caller }
+  | .ok (_, depr) =>
+    -- `.copy()` / `.get` on a section that is not a table
+    { result := .error (.internal "AttributeError"), deprecatedSection := depr, callerAfter := cfg }
 
 /-- `config.get_client_settings` -/
-def getClientSettings (env : Env) (cfg : J) : Read ClientSettings :=
+def getClientSettings (env : Env) (cfg : Dict) : Read ClientSettings :=
   let r := readRawClient env cfg
   { r with result := r.result >>= clientPostInit env }
 
-def buildSchema (sec : Dict) : Except ConfigError SchemaSettings := do
+def buildSchema (sec : Dict) : SchemaSettings :=
   let sec := sec.filter (fun kv => schemaFieldNames.contains kv.1)
-  let base ← getBase sec
-  pure {
-    toBaseSettings := base
-    targetFilePath := ← getStr sec "target_file_path" "schema.py"
-    schemaVariableName := ← getStr sec "schema_variable_name" "schema"
-    typeMapVariableName := ← getStr sec "type_map_variable_name" "type_map" }
+  { toBaseSettings := getBase sec schemaFieldNames
+    targetFilePath := getV sec "target_file_path" (.str "schema.py")
+    schemaVariableName := getV sec "schema_variable_name" (.str "schema")
+    typeMapVariableName := getV sec "type_map_variable_name" (.str "type_map") }
 
-def readRawSchema (cfg : J) : Read SchemaSettings :=
+def readRawSchema (cfg : Dict) : Read SchemaSettings :=
   match getSection cfg with
   | .error e => { result := .error e, callerAfter := cfg }
-  | .ok (sec, depr) => { result := buildSchema sec, deprecatedSection := depr, callerAfter := cfg }
+  | .ok (.table sec, depr) => { result := .ok (buildSchema sec), deprecatedSection := depr, callerAfter := cfg }
+  | .ok (_, depr) =>   -- `section.items()` on a non-table
+    { result := .error (.internal "AttributeError"), deprecatedSection := depr, callerAfter := cfg }
 
 /-- `config.get_graphql_schema_settings` (no copy, and no item assignment either) -/
-def getSchemaSettings (env : Env) (cfg : J) : Read SchemaSettings :=
+def getSchemaSettings (env : Env) (cfg : Dict) : Read SchemaSettings :=
   let r := readRawSchema cfg
   { r with result := r.result >>= schemaPostInit env }
 
